@@ -12,7 +12,7 @@ Decides one property of /repo's current working tree:
      (ending in `no-failing-input-found` when only a theorem or the correspondence broke) /
      exit 2 (infrastructure failure; no verdict).
 """
-import argparse, json, os, sys, time, hashlib
+import argparse, json, os, re, sys, time, hashlib
 sys.path.insert(0, os.path.dirname(os.path.abspath(__file__)))
 from vlib import engine as E
 from vlib import props as P
@@ -143,6 +143,11 @@ def lean_side(pid, reg, args):
     ok, log = E.lake_build(mods + ["driver"])
     res["driver_ok"] = True
     res["failed_modules"] = []
+    # declarations made with `maybe` (the ties and the theorems restated about the translated source) that
+    # no longer elaborate are left out of their module instead of failing it; the audit below reports the
+    # registered ones as missing, this names the place and the first error
+    for where, what in re.findall(r"warning: (CircBuf/\S+?\.lean:\d+):\d+: maybe: declaration skipped — ([^\n]*)", log):
+        res["notes"].append(f"skipped {where}: {what[:160]}")
     if not ok:
         # localise: which of the property's modules no longer check?  (the others are still audited)
         res["log"] = log[-4000:]
